@@ -7,4 +7,5 @@ LEVEL_NOTE = 'getattr(value, name) and Python == on untyped values are ghost fun
 from bounded.identifiers import run_c02
 from bounded.findings import run_c02_meta_in_default
 from bounded.extra import run_c02_tagged_values
-BOUNDED = [("signature-neutral edits at every node and depth", run_c02), ("default value that is a configuration (Meta edit)", run_c02_meta_in_default), ("tagged values", run_c02_tagged_values)]
+from bounded.extra import run_c01_defaults_not_shared
+BOUNDED = [("signature-neutral edits at every node and depth", run_c02), ("default value that is a configuration (Meta edit)", run_c02_meta_in_default), ("tagged values", run_c02_tagged_values), ("defaults are private copies; default with a generated field", run_c01_defaults_not_shared)]
